@@ -5,7 +5,7 @@
 //             (exact dump), bitwise comparison with x, decisions compared at corner + sampled beliefs (POMDP::Policy);
 //   trunc   : EVERY strict byte prefix of text is loaded into a fresh copy of the destination: signal, whether the
 //             destination is bit-identical to before, and the loaded object when the load succeeded;
-//   corrupt : every token × {deleted, duplicated, -1, 1e999, nan, abc, huge index(es)}: same observations.
+//   corrupt : every token × {deleted, duplicated, -1, 1e999, nan, abc, huge index(es), integer+1}: same observations.
 // The driver re-runs the Lean readers/writers on exactly the same bytes and evaluates the property clauses on the
 // implementation's outputs.
 #include "common/verif.hpp"
@@ -285,8 +285,8 @@ static std::vector<std::string> splitTokens(const std::string & s) {
 }
 static std::string joinTokens(const std::vector<std::string> & t) { std::string s; for (auto & x : t) { s += x; s += '\n'; } return s; }
 
-static const char * kCorr[] = {"del", "dup", "neg1", "big", "nan", "abc", "hugeidx", "hugeidx2"};
-static const int kNCorr = 8;
+static const char * kCorr[] = {"del", "dup", "neg1", "big", "nan", "abc", "hugeidx", "hugeidx2", "plus1"};
+static const int kNCorr = 9;
 static std::vector<std::string> corruptTokens(std::vector<std::string> t, size_t i, int c) {
     switch (c) {
         case 0: t.erase(t.begin() + i); break;
@@ -296,7 +296,12 @@ static std::vector<std::string> corruptTokens(std::vector<std::string> t, size_t
         case 4: t[i] = "nan"; break;
         case 5: t[i] = "abc"; break;
         case 6: t[i] = "4000000000"; break;
-        default: t[i] = "99999999999999999999"; break;
+        case 7: t[i] = "99999999999999999999"; break;
+        default: {   // an integer token becomes its successor (boundary of every range check); other tokens get a leading 1
+            bool digits = !t[i].empty() && t[i].size() < 18;
+            for (char c : t[i]) if (c < '0' || c > '9') digits = false;
+            t[i] = digits ? std::to_string(std::stoull(t[i]) + 1) : "1" + t[i];
+        } break;
     }
     return t;
 }
